@@ -59,6 +59,14 @@ check('C17', 'Hypothesis-generated programs through the real executables twice (
       'PADDING line and trailing total ignored (pinned odd values). Label lines constrained by order only.',
       'DESIGN.md 6 C17')
 
+check('C01', 'Hypothesis-generated X programs and inputs; differential against an independent reference interpreter with definedness checking; AST delta-debugging of failures',
+      'Each generated (program, input) pair is interpreted by xref (language definition, decides domain membership) and compiled in-process by the working-tree '
+      'xcmp (sanitizer build); the image runs on the range-checked ISA reference and on hexsim. Output bytes per stream, input consumed and 32-bit exit value must '
+      'equal the reference; rejection, crash, sanitizer report, range fault or runaway are failures.',
+      'Trusted: xref (selftest reproduces tests/x expectations), refisa. Evaluation-order and overflow choices resolved towards not raising alarms (DESIGN 4.2). '
+      'Program size is bounded by tier parameters.',
+      'DESIGN.md 6 C01')
+
 NOT_YET = {}
 
 def main():
